@@ -399,8 +399,8 @@ def _nontrivial(case: dict[str, Any], text: str) -> bool:
 
 
 def run_shard(ctx: Any) -> None:
-    n1 = 40 if ctx.tier == "quick" else 1000
-    n2 = 25 if ctx.tier == "quick" else 600
+    n1 = 60 if ctx.tier == "quick" else 1000
+    n2 = 40 if ctx.tier == "quick" else 600
 
     @given(grammar_cases())
     def test_g(case: dict[str, Any]) -> None:
